@@ -1,7 +1,7 @@
 #!/bin/bash
 # usage: harvest.sh <ID> <suffix> "<verif_result>" [replay files...]   keep a confirmed seeded change under seeded/<ID>-<suffix>/ and remove its scratch worktree
 id=$1; suf=$2; res=$3; shift 3
-src=/tmp/wt-${id}d/OUT; dst=/verif/seeded/$id-$suf
+src=/tmp/wt-${id}${WT_SUF:-d}/OUT; dst=/verif/seeded/$id-$suf
 mkdir -p $dst && cp $src/patch.diff $src/demo.diff $src/meta.json $dst/ || exit 1
 for r in "$@"; do [ -f "$r" ] && mv "$r" $dst/; done
 python3 - "$dst/meta.json" "$res" "$(grep -A3 "== $id" /tmp/verify_*.log 2>/dev/null | cut -c1-400)" <<'P'
@@ -10,4 +10,4 @@ p,res,conf=sys.argv[1],sys.argv[2],sys.argv[3]
 m=json.load(open(p)); m['verif_result']=res; m['confirmed_by_me']=conf; m['round']=4
 json.dump(m,open(p,'w'),indent=1)
 P
-git -C /repo worktree remove --force /tmp/wt-${id}d && echo "removed worktree of $id"
+git -C /repo worktree remove --force /tmp/wt-${id}${WT_SUF:-d} && echo "removed worktree of $id"
